@@ -173,6 +173,15 @@ func runPortTotal(p *core.Program, r *core.Report) {
 			} else {
 				r.Bad(rule, construct, p.InsPos(ins), "the value is offered to the channel together with the stop signal: when the port is stopped and the channel can take the value (or is closed), select picks at random - a stage that made the reading end of its pipe an output (`... | put x >&0`) panics with 'send on closed channel'")
 			}
+			// (c') the owner of a port closes the value channel when its
+			// evaluation ends, while a background job may still write: the
+			// sending function turns the resulting panic into an error
+			construct = core.FnKey(fn) + " survives a value channel closed by the port's owner"
+			if recoversHere(p, fn, 0) {
+				r.OK(rule, construct, p.InsPos(ins), "the function (or every caller of this unexported helper) defers a recover() and reports an error instead")
+			} else {
+				r.Bad(rule, construct, p.InsPos(ins), "the port's owner closes the channel when the evaluation it was made for finishes (output capture collected, script ended, pipeline stage done) and a background job can still be writing: `nop ({ sleep 0.05; put a } &); sleep 0.2` panics with 'send on closed channel'")
+			}
 		})
 	}
 	// (d) the reading end of a pipe is a stopped port
@@ -244,6 +253,40 @@ func closedAtInit(p *core.Program) map[*ssa.Global]bool {
 		})
 	}
 	return out
+}
+
+// recoversHere: a run-time panic raised in fn is caught: fn defers a recover,
+// or fn is an unexported helper every call site of which is in a function
+// that does.
+func recoversHere(p *core.Program, fn *ssa.Function, depth int) bool {
+	fn = core.Outer(fn)
+	if recoversPanic(fn) {
+		return true
+	}
+	if depth > 2 {
+		return false
+	}
+	if obj := fn.Object(); obj == nil || obj.Exported() {
+		return false
+	}
+	n := 0
+	all := true
+	for _, g := range p.FnsInPkg(core.PkgPathOf(fn)) {
+		if g.Synthetic != "" {
+			continue
+		}
+		core.Instrs(g, func(ins ssa.Instruction) {
+			c, ok := ins.(ssa.CallInstruction)
+			if !ok || c.Common().StaticCallee() != fn {
+				return
+			}
+			n++
+			if _, isGo := ins.(*ssa.Go); isGo || !recoversHere(p, g, depth+1) {
+				all = false
+			}
+		})
+	}
+	return n > 0 && all
 }
 
 // stopCheckedFirst: sel is dominated by the default edge of a non-blocking
